@@ -210,7 +210,7 @@ let wf args garr (obs : pob list) =
   List.iter (fun n -> if n < 1 || n > 100000 then bad "array size") garr;
   List.iter (fun a -> if abs a > 100000 then bad "argument magnitude") args;
   List.iter (fun p ->
-      if p.nod < 1 || p.nod > 2 || p.nid < 1 || p.nid > 2 then bad "loop nest depth";
+      if p.nod < 1 || p.nod > 3 || p.nid < 1 || p.nid > 3 then bad "loop nest depth";
       if List.length p.ob.ob_kinds <> ngarr then bad "kinds length";
       if p.ob.ob_secs = [] then bad "no section";
       let ext b = match b with BConst z -> int_of_z z
